@@ -617,12 +617,19 @@ class ArrayType(Type):
         return f"Array({self.type})"
 
 
+class EnumValueError(ValueError, AssertionError):
+    """The value is not a member of the expected enumeration
+
+    (also an AssertionError for backward compatibility)"""
+
+
 class EnumType(Type):
     def __init__(self, type: typing.Type[Enum]):
         self.type = type
 
     def validate(self, value):
-        assert isinstance(value, self.type), f"{value} is not of type {self.type}"
+        if not isinstance(value, self.type):
+            raise EnumValueError(f"{value} is not of type {self.type}")
         return value
 
     def __str__(self):
